@@ -388,12 +388,15 @@ func C05(c *vh.Ctx) {
 	c.Bound("nodes", 3)
 	c.Bound("message_sequence_max", maxLen)
 	c.Bound("limits", limits)
-	c.Rule("all assignments of node templates (message / bindings / action nodes incl. failing, stuck and cyclic ones, message nodes whose guard throws, native and ECMAScript; specs that can fail also with an error node that listens and recovers) to 3 nodes x 3 start states x all message sequences up to the bound over 3 messages x limits x breakpoints (none, at n1, at n2) x every split into consecutive batches; for every n-th spec also one batch of 700 messages under limits 1023 / 1024 / 1025 / 4097; invariants (a)-(g) of DESIGN 6/C05 on every Walked, plus equality with the reference walk. states = specs explored, transitions = strides executed; non-trivial = walk with more than one stride.")
+	c.Rule("all assignments of node templates (message / bindings / action nodes incl. failing, stuck and cyclic ones, message nodes whose guard throws, native and ECMAScript; specs that can fail also with an error node that listens and recovers) to 3 nodes x 3 start states x all message sequences up to the bound over 3 messages x limits x breakpoints (none, at n1, at n2) x every split into consecutive batches; for every n-th spec also one batch of 700 messages under limits around and beyond a thousand steps; invariants (a)-(g) of DESIGN 6/C05 on every Walked, plus equality with the reference walk. states = specs explored, transitions = strides executed; non-trivial = walk with more than one stride.")
 	all := seqs(maxLen)
 	// long walks: one batch of several hundred messages (and cyclic specs) under limits around and far beyond a
 	// thousand steps - what holds for six strides has to hold for six thousand
-	longEvery := c.Pick(40, 12)
-	longLimits := []int{1023, 1024, 1025, 4097}
+	longEvery := c.Pick(150, 40)
+	longLimits := []int{1024, 1025, 4097}
+	if c.Quick() {
+		longLimits = []int{1025, 4097}
+	}
 	var longSeq []interface{}
 	for i := 0; i < 700; i++ {
 		longSeq = append(longSeq, all[1+i%3][0])
